@@ -171,3 +171,15 @@ func init() {
 		ruleGRDinval(w, r)
 	})
 }
+
+func init() {
+	register("C20", "text analysis, chunking and context assembly are total and bounded", func(w *World, r *Report) {
+		ruleTBLsep(w, r)
+		ruleGRDsize(w, r)
+		ruleGRDprogress(w, r)
+		ruleGRDbudget(w, r)
+		ruleGRDexpand(w, r)
+		ruleTBLstop(w, r)
+		ruleEFFdet(w, r)
+	})
+}
